@@ -27,6 +27,27 @@ chk("C06",
     "machine-checked proof in Coq (induction over the comb; Q arithmetic) + translator/bit-exact correspondence",
     "DESIGN.md section 6, C06")
 
+chk("C16",
+    "Coq theorems over the executable model of apply_boundary_conditions/check_bounds: wrap and fold range, "
+    "periodicity, evenness, idempotence, identity on the unit interval, symmetric-displacement lemma (Q, all inputs); "
+    "untouched/designated coordinates and the bounds-check equivalence for every arithmetic instance and every index "
+    "set; Flocq theorem that the rounded maps stay in [0,1] for every real input. Tie: regenerated Gen.Boundary + Link, "
+    "bit-exact binary64 twin replayed against the implementation on an edge-value sweep, exact-rational oracle.",
+    "Trusted: Coq kernel/vm_compute; Reals axioms + classic + funext for the Flocq layer (named in evidence); python "
+    "translator/harness; binary64 twin models numpy floor/remainder (validated bit-for-bit).",
+    "machine-checked proof in Coq (Q arithmetic, Flocq rounding monotonicity) + translator/bit-exact correspondence",
+    "DESIGN.md section 6, C16")
+chk("C20",
+    "Coq theorems: 1 <= ESS <= N, scale invariance, uniform case (Cauchy-Schwarz by induction over Q); trimming "
+    "contract for every threshold oracle (largest admissible grid index, upper set, one mask for samples and weights, "
+    "renormalised, ESS ratio met, termination when thr(0) <= min); volume metric non-negative, weight-scale and "
+    "affine invariant on the full-rank branch (MathComp matrices over any real field). Tie: regenerated Gen.Weights + "
+    "Link, Coq model replayed against trim_weights with the recorded percentile oracle, exact-rational references.",
+    "Trusted: Coq kernel/vm_compute; python translator/harness; numpy.percentile as oracle; numpy.linalg.inv as exact "
+    "inverse; float rounding idealised (decisions within 1e-9 of a threshold are not compared).",
+    "machine-checked proof in Coq (Q arithmetic; MathComp matrix algebra) + translator/exact-rational correspondence",
+    "DESIGN.md section 6, C20")
+
 for pid in [f"C{i:02d}" for i in range(1, 21)]:
     if pid not in CHECKS:
         NA[pid] = "check not built yet in this session (planned in DESIGN.md section 6); not claimed"
